@@ -1,8 +1,8 @@
 (* Value/CharDataProofsF.v — format -> parse for the four value kinds, and parse_float:
-   prefixed forms (value < 2^64: correctly rounded; value >= 2^64: the defect, characterised exactly),
+   prefixed forms of ANY length (correctly rounded, or nothing when the value does not fit binary64),
    zero, INF / -INF / NaN, decimal forms = the std conversion. *)
 From AV Require Import Base.Bytes Base.Outcome Hash.HashModel Hash.HashProofs Spec.SpecTypes.
-From AV Require Import Value.Num Value.ValueSpec Value.NumProofs Value.F64 Value.F64Proofs Value.CharData Value.CharDataProofs.
+From AV Require Import Value.Num Value.ValueSpec Value.NumProofs Value.F64 Value.F64Proofs Value.CharData Value.CharDataProofs Value.RadixFloatProofs.
 From Coq Require Import ZArith Lia.
 
 Local Open Scope N_scope.
@@ -152,34 +152,23 @@ End FormatParse.
 Section Float.
 Variable dec_parse : list N -> option N.
 
-Lemma u64_from_str_radix_value radix (p : N -> bool) (dv : N -> N) ds :
-  0 < radix ->
-  (forall c, p c = true -> digit_val radix c = Some (dv c)) ->
-  (forall c, p c = true -> c <> 43 /\ c <> 45) ->
+(* a non-empty string of digits of the radix 2^bpd: the correctly rounded value, or infinite beyond the threshold *)
+Lemma float_digits_value bpd (p : N -> bool) (dv : N -> N) ds :
+  (forall c, p c = true -> digit_val (2 ^ N.of_nat bpd) c = Some (dv c)) ->
   nonempty_all p ds = true ->
-  u64_from_str_radix radix ds =
-  if positional radix dv ds <? 2 ^ 64 then Some (positional radix dv ds) else None.
+  exists b, float_from_radix_digits bpd ds = Some b /\
+    (f64_is_finite b = true -> correctly_rounded (positional (2 ^ N.of_nat bpd) dv ds) b) /\
+    (f64_is_finite b = false -> 2 ^ 1024 - 2 ^ 970 <= positional (2 ^ N.of_nat bpd) dv ds).
 Proof.
-  intros Hr Hp Hns Hall.
-  destruct (signed_value_unsigned radix p dv ds Hp Hns Hall) as [Hv Hm].
-  unfold u64_from_str_radix. rewrite (from_str_radix_eq false 64 radix ds Hr), Hv, Hm. cbn [andb].
-  set (v := positional radix dv ds).
-  destruct (N.ltb_spec v (2 ^ 64)) as [Hlt | Hge].
-  - rewrite (checked_in _ _ _ (in_range_u64 v Hlt)), N2Z.id. reflexivity.
-  - rewrite checked_out; [reflexivity|].
-    rewrite in_range_unsigned_iff. change (2 ^ Z.of_N 64)%Z with (Z.of_N (2 ^ 64)). lia.
+  intros Hp Hall. unfold nonempty_all in Hall. apply andb_true_iff in Hall as [Hne Hall].
+  pose proof (float_from_radix_digits_spec bpd ds) as H.
+  destruct (is_nil ds); [discriminate|].
+  rewrite (digits_value_all _ p dv ds Hp Hall) in H. exact H.
 Qed.
 
-Lemma u64_from_str_radix_bad radix c r :
-  0 < radix -> digit_val radix c = None -> c <> 43 -> u64_from_str_radix radix (c :: r) = None.
-Proof.
-  intros Hr Hd H43. unfold u64_from_str_radix.
-  rewrite (from_str_radix_eq false 64 radix (c :: r) Hr).
-  unfold leading_minus, signed_value, split_sign.
-  destruct (N.eqb_spec c 43); [contradiction|].
-  destruct (N.eqb_spec c 45) as [-> | H45]; [reflexivity|]. cbn [andb is_nil].
-  unfold digits_value. cbn [digits_value_from]. rewrite Hd. reflexivity.
-Qed.
+Lemma float_digits_bad bpd c r :
+  digit_val (2 ^ N.of_nat bpd) c = None -> float_from_radix_digits bpd (c :: r) = None.
+Proof. intros H. unfold float_from_radix_digits. cbn [is_nil radix_loop]. rewrite H. reflexivity. Qed.
 
 Lemma parse_inf_nan_zero r : parse_inf_nan (48 :: r) = None.
 Proof. reflexivity. Qed.
@@ -217,68 +206,52 @@ Proof.
       right. right. rewrite N2Z.id. auto.
 Qed.
 
-(* [U] the whole behaviour of parse_float on the prefixed lexical forms *)
+(* [U] the whole behaviour of parse_float on the prefixed lexical forms, ANY length *)
 Theorem parse_float_prefixed_all t v : prefixed_value t = Some v ->
-  parse_float dec_parse (DString t) =
-  if v <? 2 ^ 64 then Some (u64_as_f64 v) else dec_parse t.
+  exists b, parse_float dec_parse (DString t) = finite_or_none b /\
+    (f64_is_finite b = true -> correctly_rounded v b) /\
+    (f64_is_finite b = false -> 2 ^ 1024 - 2 ^ 970 <= v).
 Proof.
   intros Hpv. destruct (prefixed_value_cases t v Hpv) as (x & ds & -> & Hcase).
-  unfold parse_float, prefixed_u64, T0, T0x, T0X, T0b, T0B.
+  unfold parse_float, prefixed_f64, T0, T0x, T0X, T0b, T0B.
   rewrite !strip_prefix_2, strip_prefix_1.
   cbn [bytes_eqb]. change (48 =? 48) with true. cbn [andb].
   replace (match ds with [] => false | _ :: _ => false end) with false by (destruct ds; reflexivity).
-  assert (H16 : 0 < 16) by lia. assert (H2 : 0 < 2) by lia. assert (H8 : 0 < 8) by lia.
   destruct Hcase as [(Hx & Hall & ->) | [(Hx & Hb & Hall & ->) | (Hx & Hb & Hall & ->)]].
   - (* hexadecimal *)
-    pose proof (u64_from_str_radix_value 16 is_hex hex_digit ds H16 digit_val_hex hex_not_sign Hall) as Hu.
-    assert (Hoct : u64_from_str_radix 8 (x :: ds) = None).
-    { apply orb_true_iff in Hx as [Hx | Hx]; apply N.eqb_eq in Hx; subst x;
-        apply u64_from_str_radix_bad; try lia; reflexivity. }
-    apply orb_true_iff in Hx as [Hx | Hx]; apply N.eqb_eq in Hx; subst x.
-    + cbn [N.eqb Pos.eqb]. rewrite Hu.
-      destruct (positional 16 hex_digit ds <? 2 ^ 64); [reflexivity|].
-      rewrite Hoct. apply f64_from_str_zero.
-    + cbn [N.eqb Pos.eqb]. rewrite Hu.
-      destruct (positional 16 hex_digit ds <? 2 ^ 64); [reflexivity|].
-      rewrite Hoct. apply f64_from_str_zero.
+    destruct (float_digits_value 4 is_hex hex_digit ds digit_val_hex Hall) as (b & Hb & H1 & H2).
+    exists b. split; [|split; assumption].
+    apply orb_true_iff in Hx as [Hx | Hx]; apply N.eqb_eq in Hx; subst x; cbn [N.eqb Pos.eqb]; rewrite Hb; reflexivity.
   - (* binary *)
-    pose proof (u64_from_str_radix_value 2 is_bin dec_digit ds H2 digit_val_bin bin_not_sign Hall) as Hu.
-    assert (Hoct : u64_from_str_radix 8 (x :: ds) = None).
-    { apply orb_true_iff in Hb as [Hb | Hb]; apply N.eqb_eq in Hb; subst x;
-        apply u64_from_str_radix_bad; try lia; reflexivity. }
-    apply orb_true_iff in Hb as [Hb | Hb]; apply N.eqb_eq in Hb; subst x.
-    + cbn [N.eqb Pos.eqb]. rewrite Hu.
-      destruct (positional 2 dec_digit ds <? 2 ^ 64); [reflexivity|].
-      rewrite Hoct. apply f64_from_str_zero.
-    + cbn [N.eqb Pos.eqb]. rewrite Hu.
-      destruct (positional 2 dec_digit ds <? 2 ^ 64); [reflexivity|].
-      rewrite Hoct. apply f64_from_str_zero.
+    destruct (float_digits_value 1 is_bin dec_digit ds digit_val_bin Hall) as (b & Hbv & H1 & H2).
+    exists b. split; [|split; assumption].
+    apply orb_true_iff in Hb as [Hb | Hb]; apply N.eqb_eq in Hb; subst x; cbn [N.eqb Pos.eqb]; rewrite Hbv; reflexivity.
   - (* octal *)
     assert (Hne : nonempty_all is_oct (x :: ds) = true) by (unfold nonempty_all; rewrite Hall; reflexivity).
-    pose proof (u64_from_str_radix_value 8 is_oct dec_digit (x :: ds) H8 digit_val_oct oct_not_sign Hne) as Hu.
+    destruct (float_digits_value 3 is_oct dec_digit (x :: ds) digit_val_oct Hne) as (b & Hbv & H1 & H2).
+    exists b. split; [|split; assumption].
     pose proof Hall as Hall'. cbn [forallb] in Hall'. apply andb_true_iff in Hall' as [Hox _].
     destruct (oct_digit_cases x Hox) as (E1 & E2 & E3 & E4).
     rewrite (N.eqb_sym 120 x), (N.eqb_sym 88 x), (N.eqb_sym 98 x), (N.eqb_sym 66 x), E1, E2, E3, E4.
-    rewrite Hu.
-    destruct (positional 8 dec_digit (x :: ds) <? 2 ^ 64); [reflexivity|].
-    apply f64_from_str_zero.
+    rewrite Hbv. reflexivity.
 Qed.
 
-(* [U] prefixed forms with a value below 2^64: the correctly rounded binary64 *)
-Theorem parse_float_prefixed t v : prefixed_value t = Some v -> v < 2 ^ 64 ->
+(* [U] prefixed forms: the correctly rounded binary64 when the value fits, nothing when it does not
+   (2^1024 - 2^970 is the smallest number that rounds to 2^1024, i.e. out of the finite range) *)
+Theorem parse_float_prefixed t v : prefixed_value t = Some v ->
+  (exists b, parse_float dec_parse (DString t) = Some b /\ correctly_rounded v b) \/
+  (parse_float dec_parse (DString t) = None /\ 2 ^ 1024 - 2 ^ 970 <= v).
+Proof.
+  intros Hpv. destruct (parse_float_prefixed_all t v Hpv) as (b & -> & H1 & H2).
+  unfold finite_or_none. destruct (f64_is_finite b).
+  - left. exists b. auto.
+  - right. auto.
+Qed.
+
+Corollary parse_float_prefixed_fits t v : prefixed_value t = Some v -> v < 2 ^ 1024 - 2 ^ 970 ->
   exists b, parse_float dec_parse (DString t) = Some b /\ correctly_rounded v b.
 Proof.
-  intros Hpv Hv. exists (u64_as_f64 v). rewrite (parse_float_prefixed_all t v Hpv).
-  destruct (N.ltb_spec v (2 ^ 64)); [|lia].
-  split; [reflexivity | apply u64_as_f64_correct, Hv].
-Qed.
-
-(* the defect class: a prefixed form of value >= 2^64 is handed, prefix and all, to the DECIMAL conversion *)
-Theorem parse_float_prefixed_big t v : prefixed_value t = Some v -> 2 ^ 64 <= v ->
-  parse_float dec_parse (DString t) = dec_parse t.
-Proof.
-  intros Hpv Hv. rewrite (parse_float_prefixed_all t v Hpv).
-  destruct (N.ltb_spec v (2 ^ 64)); [lia | reflexivity].
+  intros Hpv Hv. destruct (parse_float_prefixed t v Hpv) as [H | [_ H]]; [exact H | lia].
 Qed.
 
 (* zero, and the three special spellings of the Numerical pattern: no oracle involved *)
@@ -296,7 +269,7 @@ Proof. repeat split; reflexivity. Qed.
 Theorem parse_float_no_prefix c r : c <> 48 ->
   parse_float dec_parse (DString (c :: r)) = f64_from_str dec_parse (c :: r).
 Proof.
-  intros Hc. unfold parse_float, prefixed_u64, T0, T0x, T0X, T0b, T0B.
+  intros Hc. unfold parse_float, prefixed_f64, T0, T0x, T0X, T0b, T0B.
   rewrite !strip_prefix_2, strip_prefix_1. cbn [bytes_eqb].
   rewrite (proj2 (N.eqb_neq c 48) Hc), (proj2 (N.eqb_neq 48 c)) by congruence. cbn [andb].
   destruct r; reflexivity.
@@ -306,11 +279,11 @@ Qed.
 Theorem parse_float_zero_point c r : c = 46 \/ c = 101 \/ c = 69 ->
   parse_float dec_parse (DString (48 :: c :: r)) = dec_parse (48 :: c :: r).
 Proof.
-  intros Hc. unfold parse_float, prefixed_u64, T0, T0x, T0X, T0b, T0B.
+  intros Hc. unfold parse_float, prefixed_f64, T0, T0x, T0X, T0b, T0B.
   rewrite !strip_prefix_2, strip_prefix_1. cbn [bytes_eqb]. change (48 =? 48) with true. cbn [andb].
   replace (match r with [] => false | _ :: _ => false end) with false by (destruct r; reflexivity).
-  assert (Hoct : u64_from_str_radix 8 (c :: r) = None).
-  { destruct Hc as [-> | [-> | ->]]; apply u64_from_str_radix_bad; try lia; reflexivity. }
+  assert (Hoct : float_from_radix_digits 3 (c :: r) = None).
+  { destruct Hc as [-> | [-> | ->]]; apply float_digits_bad; reflexivity. }
   destruct Hc as [-> | [-> | ->]]; cbn [N.eqb Pos.eqb]; rewrite Hoct; apply f64_from_str_zero.
 Qed.
 
@@ -324,41 +297,22 @@ Proof. repeat split. Qed.
 End Float.
 
 (* ------------------------------------------------------------------ *)
-(** * Witnesses of the defect (the model refutes "correctly rounded for every prefixed form that fits") *)
+(** * The former defect (known_findings.json "float-prefixed-ge-2^64", fixed): regression witnesses *)
 
-(* 2^64 written in octal: in the lexical form, exactly representable in binary64 *)
+(* 2^64 written in octal, 2^65 - 1 written in hexadecimal (rounds to 2^65) *)
 Definition oct_2_64 : list N := BS "02000000000000000000000".
-(* 2^65 - 1 written in hexadecimal *)
 Definition hex_2_65m1 : list N := BS "0x1ffffffffffffffff".
 
-Lemma rep53_pow2 k : rep53 (2 ^ k).
-Proof. exists 1, k. split; [ring | reflexivity]. Qed.
-
-Theorem parse_float_prefixed_refuted :
-  (* octal: the result is whatever the decimal conversion makes of the digits 2000000000000000000000 *)
+Theorem parse_float_prefixed_regression :
   prefixed_value oct_2_64 = Some (2 ^ 64) /\
-  rep53 (2 ^ 64 * 2 ^ 1074) /\
-  digits_value 10 oct_2_64 = Some 2000000000000000000000 /\
-  (forall dec, parse_float dec (DString oct_2_64) = dec oct_2_64) /\
-  (* hexadecimal: the result is whatever the decimal conversion makes of "0x1ffffffffffffffff" (std: an error) *)
   prefixed_value hex_2_65m1 = Some (2 ^ 65 - 1) /\
-  (forall dec, parse_float dec (DString hex_2_65m1) = dec hex_2_65m1) /\
-  digits_value 10 hex_2_65m1 = None.
+  forall dec,
+    parse_float dec (DString oct_2_64) = Some 4895412794951729152 /\       (* 0x43F0000000000000 = 2^64 *)
+    parse_float dec (DString hex_2_65m1) = Some 4899916394579099648.        (* 0x4400000000000000 = 2^65 *)
 Proof.
-  assert (H1 : prefixed_value oct_2_64 = Some (2 ^ 64)) by (vm_compute; reflexivity).
-  assert (H2 : prefixed_value hex_2_65m1 = Some (2 ^ 65 - 1)) by (vm_compute; reflexivity).
-  split; [exact H1|].
-  split; [rewrite <- N.pow_add_r; apply rep53_pow2|].
-  split; [vm_compute; reflexivity|].
-  split; [intros dec; apply (parse_float_prefixed_big dec _ _ H1); lia|].
-  split; [exact H2|].
-  split; [intros dec; apply (parse_float_prefixed_big dec _ _ H2); vm_compute; discriminate|].
-  vm_compute. reflexivity.
+  split; [vm_compute; reflexivity|]. split; [vm_compute; reflexivity|].
+  intros dec. split; vm_compute; reflexivity.
 Qed.
-
-Print Assumptions format_parse.
-Print Assumptions parse_float_prefixed_all.
-Print Assumptions parse_float_prefixed_refuted.
 
 (* ------------------------------------------------------------------ *)
 (** * Non-vacuity of the hypotheses used in Properties/C20.v *)
